@@ -16,7 +16,8 @@ harness's reference encoders produced `data` from `plain`, one entry per filter,
   `a85:<Y|N>:<every>:<A|P>`         `<~` prefix?, white space
   `rl:<p>.<p>…`                      packets `L<hex>` / `R<n>x<byte hex>` (`rl:` = none)
   `lzw:<0|1>:<clearAt>:<pred>`      EarlyChange, Clear policy, predictor
-  `fl:s<block>:<pred>` | `fl:z<hex>:<pred>`   zlib stored blocks | bytes compressed by flate2
+  `fl:s<block>:<pred>` | `fl:f0:<pred>` | `fl:z<hex>:<pred>`   zlib stored blocks | one fixed-Huffman block of
+                                      literals | bytes compressed by flate2
   pred = `n` | `p<t>,<t>,…` (PNG row filter types; Columns/Colors/BitsPerComponent from `parms`) | `t` (TIFF 2)
 
   `cc <K> <columns> <rows> <blackIs1> <data> <expected>`  hand-made CCITT vector (see docs/C07.md)
@@ -40,6 +41,7 @@ inductive StageSpec where
   | lzw (early : Bool) (clearAt : Nat) (pred : PredSpec)
   | flStored (block : Nat) (pred : PredSpec)
   | flGiven (bytes : List Nat) (pred : PredSpec)
+  | flFixed (pred : PredSpec)
 
 def parsePred? (s : String) : Option PredSpec :=
   match s.toList with
@@ -71,6 +73,7 @@ def parseStage? (s : String) : Option StageSpec :=
     match k.toList, parsePred? p with
     | 's' :: r, some p => (String.ofList r).toNat?.map fun b => .flStored b p
     | 'z' :: r, some p => (bytesOfHex? (String.ofList r)).map fun b => .flGiven b p
+    | 'f' :: _, some p => some (.flFixed p)
     | _, _ => none
   | _ => none
 
@@ -97,6 +100,7 @@ def encStage (zt : ZTab) (s : StageSpec) (d : Option Dict) (x : List Nat) : Opti
   | .rl ps => if rlExpand ps == x && ps.all Packet.valid then some (rlSerialize ps) else none
   | .lzw early clearAt pred => some (lzwEnc early clearAt (applyPredEnc pred d x))
   | .flStored block pred => some (zlibStored block (applyPredEnc pred d x))
+  | .flFixed pred => some (zlibFixed (applyPredEnc pred d x))
   | .flGiven bytes pred =>
     match lookupL bytes zt.z with
     | some (some plain) => if plain == applyPredEnc pred d x then some bytes else none
@@ -111,6 +115,7 @@ def hasTiff : List StageSpec → Bool
   | .lzw _ _ .tiff :: _ => true
   | .flStored _ .tiff :: _ => true
   | .flGiven _ .tiff :: _ => true
+  | .flFixed .tiff :: _ => true
   | _ :: r => hasTiff r
 
 def hasNulWs : List StageSpec → Bool
